@@ -81,6 +81,17 @@ def generate(rng, tier):
     n = 90 if tier == "quick" else 1500
     for i in range(n):
         cases.append(_mk_case(rng, fdir, i, tier))
+    # a reader that needs more than 3 s for one file (the periodic truncation check fires while it is still reading)
+    # whose last line has no trailing newline
+    for j, (nl, delay) in enumerate([(700, 6000), (1200, 3500)]):
+        path = os.path.join(fdir, "slow%d.log" % j)
+        lines = ["HIT slow line %d %s" % (k, "s" * 40) for k in range(nl)]
+        with open(path, "w") as f:
+            f.write("\n".join(lines))          # no final newline
+        _nonl.add(os.path.basename(path))
+        cases.append({"payloads": [("cat: %s regex:noop " % path).encode().hex()], "cat_limit": 2, "private_limiter": True, "gap_ms": 0,
+                      "read_delay_us": delay, "stall_after": 0, "stall_ms": 0, "wait_ms": 40000,
+                      "_expect": [{"id": os.path.basename(path), "selected": list(range(nl)), "lines": lines}], "_pace": "slow", "_grep": False, "_refused": False})
     # black-box: the DESIGN.md probe (3000 x 1 KB lines into a reader taking 4 KiB per 5 ms)
     for tr in (["serverless", "server"] if tier == "quick" else ["serverless", "server"] * 4):
         cases.append({"blackbox": True, "transport": tr, "nlines": 3000, "linelen": 1000, "chunk": 4096, "sleep_ms": rng.choice([5, 8])})
